@@ -31,9 +31,10 @@ type Cmd struct {
 	Seqs   map[string][]bson.D
 	Failed bool
 	Fault  string
-	// Post holds, for an executed update command, the documents it wrote as they are stored
-	// afterwards (one per matched or upserted document, in statement order): what a reader of
-	// the collection sees, whatever form the update took (replacement, $set / $unset, ...).
+	// Post holds, for an executed write command (update, findAndModify, insert), the documents
+	// it wrote as they are stored afterwards (one per matched, upserted or inserted document, in
+	// statement order): what a reader of the collection sees, whatever form the write took
+	// (replacement, $set / $unset, find-and-replace, delete + insert, ...).
 	Post []bson.D
 }
 
@@ -341,6 +342,7 @@ func (s *Server) exec(c *Cmd) bson.D {
 				break
 			}
 			s.colls[ns] = append(s.colls[ns], clone(d))
+			c.Post = append(c.Post, clone(d))
 			n++
 		}
 		if _, ok := s.colls[ns]; !ok {
@@ -519,6 +521,7 @@ func (s *Server) exec(c *Cmd) bson.D {
 				pre := clone(e)
 				nd := applyUpdate(clone(e), u.(bson.D), false)
 				s.colls[ns][j] = nd
+				c.Post = append(c.Post, clone(nd))
 				var val interface{} = pre
 				if b, _ := nw.(bool); b {
 					val = clone(nd)
@@ -533,6 +536,7 @@ func (s *Server) exec(c *Cmd) bson.D {
 			}
 			nd = applyUpdate(nd, u.(bson.D), true)
 			s.colls[ns] = append(s.colls[ns], nd)
+			c.Post = append(c.Post, clone(nd))
 			id, _ := get(nd, "_id")
 			var val interface{}
 			if b, _ := nw.(bool); b {
